@@ -20,11 +20,52 @@ UNITS = {
     'unitB': {'spec': 'unitB.vrs'},
     'unitD': {'spec': 'unitD.vrs', 'threads': 8},
     'unitI': {'spec': 'unitI.vrs'},
+    'unitE': {'spec': 'unitE.vrs'},
     'unitF': {'spec': 'unitF.vrs', 'expanded': True, 'threads': 8},
     'unitC': {'spec': 'unitC.vrs', 'expanded': True, 'threads': 16, 'timeout': 2400},
 }
 
 PROPS = {
+    'C06': {
+        'units': ['unitE'],
+        'assumptions': ['A-sem', 'A-deps', 'A-arena', 'A-std', 'A-iter', 'A-ext', 'A-extract', 'A-verus'],
+        'rules': 'R1 R2 R4 (loop bodies; `continue` -> `return`) R4c R5e R6 R10 (`UsedVisitor{..}; dfs_in_order(..)` ==> scan_body summary; `iter().for_each(push_func)` ==> push_all_funcs summary); panic mode: absent',
+        'claimed': [
+            'Roots::push_* (real): mark + schedule, worklist discipline (everything on a stack is marked), nothing un-marked',
+            'UsedVisitor id hooks (real): every id reported by the traversal (unit F: every entity operand) becomes used',
+            'root loop bodies of Used::new (real): exports, active data segments, declared element segments, active element segments of imported tables are marked',
+            'pop loop bodies of Used::new (real), one per entity kind: after scanning x everything x refers to is marked (function: its type + body operands; table: its active segments; memory: its active data segments; global: its initialiser; data: memory + offset global; element: every function / global item of either reference type, table, offset global)',
+            'lemma_worklist_closure / lemma_closed_at_exit: those body contracts + empty stacks at exit give closure of the used set under the reference relation',
+            'gc::run (whole real function, loops by summary) and each of its nine loop bodies: an entity is live afterwards iff it was live and marked used (imports: iff the entity they import is used); nothing else changes',
+        ],
+        'unclaimed': [
+            'behavioural equivalence itself (A-sem): the contract proves "kept set closed under references and containing the roots", not execution equality',
+            'the composition of the loops of Used::new into the whole function (fold summaries assumed, A-iter), dfs_in_order reaching every instruction (unit F / C16), custom-section roots (dyn CustomSection, A-ext)',
+            'validity of the emitted module after gc: bounded stand-in only',
+        ],
+        'standins': [
+            {'fn': 'Used::new + gc::run + emit end to end', 'argv': ['gc'],
+             'bound': '40 modules (one per reference edge kind: each instruction operand class, const exprs, element items of both reference types, table/memory back-links, imported tables, declared segments, start): output validates, same exports, kept entities per kind == independently computed reachable set of the input, nothing unreachable in the output, second run and re-parsed run change nothing',
+             'why': 'whole-function composition over iterator adapters and the visitor traversal is outside one Verus unit'},
+        ],
+    },
+    'C07': {
+        'units': ['unitE'],
+        'assumptions': ['A-deps', 'A-arena', 'A-std', 'A-iter', 'A-extract', 'A-verus'],
+        'rules': 'R1 R2 R4 R4c R6; panic mode: absent',
+        'claimed': [
+            'gc::run (whole real function, loops by summary): every entity not marked used is deleted from its arena, every import whose entity is not used is deleted; gc::unused body: an id is scheduled iff it is not in the used set',
+            'Roots::push_* / pop bodies: `grows_from` -- whatever becomes newly marked was pushed by a body whose contract names it (no marking outside the reference relation inside these bodies)',
+        ],
+        'unclaimed': [
+            'least-fixpoint (precision) of Used::new as a whole and idempotence: bounded stand-in only (an upper bound on a set built by a worklist needs the whole-function invariant with fold summaries)',
+        ],
+        'standins': [
+            {'fn': 'precision + idempotence end to end', 'argv': ['gc'],
+             'bound': '40 modules with mixes of reachable / unreachable entities of every kind: independent reachability on the emitted binary finds nothing unreachable (one memory tolerated when data segments are kept); kept counts == reachable counts of the input; second gc run and gc of the re-parsed output change nothing',
+             'why': 'see unclaimed'},
+        ],
+    },
     'C12': {
         'units': ['unitI'],
         'obligations': ['I.emit_wasm'],
